@@ -48,6 +48,7 @@ def t_struct(chk, ix):
     rules_parser.check_model_adders(chk, ix)
     rules_parser.check_parse_step_concrete(chk, ix)
     rules_parser.check_step_keywords_all_languages(chk, ix)
+    rules_parser.check_language_header(chk, ix)
     rules_parser.check_parse_file_passes_text(chk, ix)
     # a parse function returns a fresh model for the text it is given: it keeps no memo (the result is mutable, a file
     # may change between two calls)
@@ -72,4 +73,5 @@ def run(chk, ix, tier):
     chk.require_instances("RF8", 6)
     chk.require_instances("P12", 16)
     chk.require_instances("P14", 500)
+    chk.require_instances("P15", 5)
     chk.require_instances("P13", 3)
